@@ -19,7 +19,8 @@ PNAMES = "abcdefghi"
 # formal parameter names are bound names: the meaning of a macro does not depend on them.  Schemes:
 # 0 unrelated names; 1 every later name is a prefix of the earlier ones; 2 every earlier name is a prefix of
 # the later ones; 3 names that extend the directive and data words used in bodies (db, dw, dc32, ...);
-# 4 the first two parameters are named like the labels the program defines further down (la, lb)
+# 4 the first two parameters are named like the labels the program defines further down (la, lb);
+# 5 parameters named h, b, q, x1 while numbers are spelled 10h / 101b / 17q
 CUR = {"scheme": 0, "np": 0}
 EXT = ["dbq", "dwq", "dc8q", "dc16q", "dc32q", "dlq", "asciiq", "dqq", "dc64q"]
 
@@ -32,6 +33,9 @@ def pname(i):
         return "w" + "y" * (i - 1)
     if sch == 3:
         return EXT[i - 1]
+    if sch == 5 and i <= 4:
+        # the letters that end a number spelled 10h / 101b / 17q, and one that starts like a hex prefix
+        return ["h", "b", "q", "x1"][i - 1]
     if sch == 4 and i <= 2:
         # the names of the program's labels (defined behind the macros)
         return ["la", "lb"][i - 1]
@@ -40,6 +44,13 @@ def pname(i):
 
 def ritem(it, params=False):
     k = it["k"]
+    if k == "num" and CUR["scheme"] == 5:
+        u = A.word_int(it["v"])
+        if 0 <= u < (1 << 31):
+            if u % 3 == 0:
+                t = "%x" % u
+                return ("0" if t[0] in "abcdef" else "") + t + "h"
+            return (bin(u)[2:] + "b") if u % 3 == 1 else (oct(u)[2:] + "q")
     if k == "ref":
         return it["n"]
     if k == "param":
@@ -60,7 +71,7 @@ def rstmt(s, out, variant):
     elif k == "equ":
         out.append("%s equ %s" % (s["n"], ritem(s["v"])))
     elif k == "macro":
-        CUR["scheme"], CUR["np"] = (variant // 2) % 5, s["np"]
+        CUR["scheme"], CUR["np"] = (variant // 2) % 6, s["np"]
         ps = ", ".join(pname(i + 1) for i in range(s["np"]))
         out.append(".macro %s%s" % (s["n"], "(%s)" % ps if s["np"] else ""))
         for b in s["body"]:
